@@ -112,7 +112,8 @@ def LdSigned (cfg : Cfg) (P : Crypto) (E : Env) (at_ : Option Time) (issuer : St
 def JwtSigned (cfg : Cfg) (P : Crypto) (E : Env) (at_ : Option Time) (issuer : String) (raw : String) (j : Option JwtInfo) : Prop :=
   ∃ i k, j = some i ∧ (i.kid = "" ∨ beforeHash i.kid = issuer) ∧ AuthorisedAt E at_ (jwtKeyID i.kid issuer) k ∧
     resolveKeyByID E at_ (jwtKeyID i.kid issuer) = some k ∧
-    cfg.supportedAlgs.contains i.alg = true ∧ P.sigOK k (P.jwtInput raw) i.sig = true ∧ jwtTimeOK i (atOf E at_) = true
+    (cfg.supportedAlgs.contains i.alg = true ∧ algorithmFitsKey i.alg (P.keyKind k) = true) ∧
+    P.sigOK k (P.jwtInput raw) i.sig = true ∧ jwtTimeOK i (atOf E at_) = true
 
 theorem ld_accept_iff {cfg : Cfg} {P : Crypto} {E : Env} {at_ : Option Time} {issuer : String} {doc : Bytes} {s : LdDoc} :
     runChecks (ldChecks cfg P E at_ issuer doc) s = .ok () ↔ (issuer ≠ "" ∧ LdSigned cfg P E at_ issuer doc s) := by
@@ -163,6 +164,7 @@ theorem jwt_accept_iff {cfg : Cfg} {P : Crypto} {E : Env} {at_ : Option Time} {i
     have h2 := h (jwtKeyResolves E at_ issuer) (by simp [jwtChecks])
     have h3 := h (jwtAlgSupported cfg) (by simp [jwtChecks])
     have h4 := h (jwtSignature P E at_ issuer raw) (by simp [jwtChecks])
+    have h7 := h (jwtAlgFitsKey P E at_ issuer) (by simp [jwtChecks])
     have h5 := h (jwtClock E at_) (by simp [jwtChecks])
     have h6 := h (jwtKidOfIssuer issuer) (by simp [jwtChecks])
     cases j with
@@ -171,21 +173,23 @@ theorem jwt_accept_iff {cfg : Cfg} {P : Crypto} {E : Env} {at_ : Option Time} {i
       simp only [jwtKeyResolves, guard_pass_iff] at h2
       simp only [jwtAlgSupported, guard_pass_iff] at h3
       simp only [jwtSignature] at h4
+      simp only [jwtAlgFitsKey] at h7
       simp only [jwtClock, guard_pass_iff] at h5
       simp only [jwtKidOfIssuer, guard_pass_iff] at h6
       cases hk : resolveKeyByID E at_ (jwtKeyID i.kid issuer) with
       | none => simp [hk] at h2
       | some k =>
-        simp only [hk, guard_pass_iff] at h4
+        simp only [hk, guard_pass_iff] at h4 h7
         simp at h6
-        exact ⟨i, k, rfl, h6, resolveKeyByID_some hk, hk, h3, h4, h5⟩
+        exact ⟨i, k, rfl, h6, resolveKeyByID_some hk, hk, ⟨h3, h7⟩, h4, h5⟩
   · intro ⟨i, k, hj, hkid, _, hk, halg, hsig, ht⟩ c hc
     subst hj
     simp [jwtChecks] at hc
-    rcases hc with rfl | rfl | rfl | rfl | rfl | rfl
+    rcases hc with rfl | rfl | rfl | rfl | rfl | rfl | rfl
     · simp [jwtParses, guard_pass_iff]
     · simp [jwtKeyResolves, guard_pass_iff, hk]
-    · simp only [jwtAlgSupported, guard_pass_iff]; exact halg
+    · simp only [jwtAlgSupported, guard_pass_iff]; exact halg.1
+    · simp [jwtAlgFitsKey, hk, guard_pass_iff, halg.2]
     · simp [jwtSignature, hk, guard_pass_iff, hsig]
     · simp [jwtClock, guard_pass_iff, ht]
     · simp only [jwtKidOfIssuer, guard_pass_iff]; simpa using hkid
